@@ -24,6 +24,7 @@ mod c20;
 mod c17;
 mod c09;
 mod c19;
+mod c18;
 
 use common::Tier;
 
@@ -58,6 +59,7 @@ fn main() {
         "C17" => c17::run(tier),
         "C09" => c09::run(tier),
         "C19" => c19::run(tier),
+        "C18" => c18::run(tier),
         "C19-child" => c19::child_main(),
         "C09-text" => c09::text_child(args[2].parse().unwrap(), args[3].parse().unwrap()),
         "C09-probe" => c09::probe_child(&args[2], args[3].parse().unwrap()),
